@@ -546,7 +546,22 @@ func c12SchemaArg(r *Rng, s *sx.Node) *sx.Node {
 		return s // the schema against (a fresh copy of) itself
 	}
 	k := r.Intn(n)
-	return c12Perturb(r, s, &k)
+	p := c12Perturb(r, s, &k)
+	if !c12Buildable(p) {
+		return s // e.g. the inlined discriminator of a one-of member was the property dropped: the constructors refuse it
+	}
+	return p
+}
+
+// c12Buildable: the public constructors accept the descriptor (they panic on a mis-built schema, by contract).
+func c12Buildable(s *sx.Node) (ok bool) {
+	defer func() {
+		if r := recover(); r != nil {
+			ok = false
+		}
+	}()
+	buildSchema(s)
+	return true
 }
 
 func c12History(r *Rng, sc c04Schema, n int) []*sx.Node {
